@@ -135,10 +135,10 @@ def Val.shape : Val → Nat
   | .list [] => 3
   | _ => 0
 
-/-- Shapes of the three inputs of every job in a workflow output (a list of job outputs `[tag, x, y, z]`). -/
+/-- Shapes of the inputs x, y, z of every job in a workflow output (a list of job outputs `[tag, x, y, z, u, v]`). -/
 def Val.jobShapes : Val → List (List Nat)
   | .list jobs => jobs.map fun j => match j with
-    | .list [_, x, y, z] => [x.shape, y.shape, z.shape]
+    | .list [_, x, y, z, _, _] => [x.shape, y.shape, z.shape]
     | _ => []
   | _ => []
 
@@ -215,7 +215,7 @@ def partialZip : Wf :=
 
 theorem C03_witness_partial_zip :
     modelSummary partialZip = .crash .attributeError ∧
-    specSummary partialZip = .ok [(0, 2), (1, 1)] [[[], [], [], []]] := by decide +kernel
+    specSummary partialZip = .ok [(0, 2), (1, 1)] [[[], [], [], [], [], []]] := by decide +kernel
 
 /-- D37: a node with an own splitter whose combiner removes every inherited axis. -/
 def combAllPrev : Wf :=
